@@ -109,7 +109,7 @@ def _depth(klong):
     return len(klong._context._context)
 
 
-TRUTHY = ["1", '"a"', "[0]", "7", "[1 2]", "0.5"]
+TRUTHY = ["1", '"a"', "[0]", "7", "[1 2]", "0.5", "[[]]", "[[] []]", '[""]']
 FALSY = ["0", "[]", '""', "0.0"]
 
 
@@ -201,7 +201,8 @@ class Gen:
             else:
                 stmts.append(self.expr(level, ar, assigned))
         stmts.append(self.expr(level, ar, assigned))
-        head = f"[{' '.join(locs)}];" if locs else ""
+        # both spellings of a local declaration: [a b] and [a;b]
+        head = (f"[{(';' if ch.draw(2, 'locsep') else ' ').join(locs)}];") if locs else ""
         return "{" + head + ";".join(stmts) + "}"
 
     def program(self):
@@ -547,6 +548,26 @@ def scenario_subst(ch, cfg):
     evaluations += 1
     if rr != ("ok", ("i", rn * (rn + 1) // 2)):
         viol("C03:subst:recursion-through-dot-f", f"R::{{:[x<1;0;x+.f(x-1)]}}; R({rn}) gives {rr}, expected {rn * (rn + 1) // 2}")
+    # the same recursion with a declared local: every level of the recursion must have its own copy
+    kR("RL::{[a];a::x;:[x<1;0;a+.f(x-1)]}")
+    rl = _run(kR, f"RL({rn})")
+    evaluations += 1
+    if rl != ("ok", ("i", rn * (rn + 1) // 2)):
+        viol("C03:subst:recursion-through-dot-f-shares-locals",
+             f"RL::{{[a];a::x;:[x<1;0;a+.f(x-1)]}}; RL({rn}) gives {rl}, expected {rn * (rn + 1) // 2} (the local a of an outer level is overwritten by the inner call)")
+    # a projection whose pre-filled argument is a literal list
+    if n >= 2 and body in ("x,y", "y,x", "x,y,z", "z,y,x"):
+        lit_first = ";".join(["[1 2]"] + [""] * (n - 1))
+        rest_args = ["7", "[]"][:n - 1]
+        kP, tP = fresh()
+        kP(f"p1::F({lit_first})")
+        rp = _run(kP, f"p1({';'.join(rest_args)})")
+        kQ, tQ = fresh()
+        rq = _run(kQ, f"F({';'.join(['[1 2]'] + rest_args)})")
+        evaluations += 1
+        if rp != rq:
+            viol("C03:subst:projection-with-literal-list-argument", f"F::{{{body}}}; p1::F({lit_first}); p1({';'.join(rest_args)}) gives {str(rp)[:100]}; "
+                 f"the direct call gives {str(rq)[:100]}")
     targs = [f"t({i + 1};{a})" for i, a in enumerate(args)]
     ids = list(range(1, n + 1))
     check("direct", [f"F({';'.join(targs)})"], tick_ids=ids)
